@@ -344,9 +344,22 @@ use fstubs::{PROC, PROC_N};
 /// directly (BasicEntry::compare goes through Value::partial_cmp, whose array arms drag the value
 /// stores into every comparison: 15 min without a verdict).
 struct E3 {
-    k: Word<u64>,
+    k: Key,
     r: Value,
     idx: Vow<EntryIdx>,
+}
+/// the sort key: a constant, or the position of the parent plus one (read when compared)
+enum Key {
+    Const(u64),
+    ParentPlusOne(Bound<EntryIdx>),
+}
+impl Key {
+    fn get(&self) -> u64 {
+        match self {
+            Key::Const(c) => *c,
+            Key::ParentPlusOne(b) => b.get().into_u32() as u64 + 1,
+        }
+    }
 }
 impl EntryTrait<PN, VN> for E3 {
     fn variant_name(&self) -> Option<MayRef<VN>> {
@@ -433,10 +446,10 @@ fn finalize_keys(n: usize, canary: bool) {
     let v0 = Vow::new(EntryIdx::from(0u32));
     let b0 = v0.bind();
     let mut store: EntryStore<PN, VN, E3> = EntryStore::new(schema1(), Some(3));
-    let h0 = store.add_entry(E3 { k: Word::from(k[0] as u64), r: uword(b0.clone()), idx: v0 });
-    let h1 = store.add_entry(E3 { k: Word::from(k[1] as u64), r: uword(b0.clone()), idx: Vow::new(EntryIdx::from(0u32)) });
+    let h0 = store.add_entry(E3 { k: Key::Const(k[0] as u64), r: uword(b0.clone()), idx: v0 });
+    let h1 = store.add_entry(E3 { k: Key::Const(k[1] as u64), r: uword(b0.clone()), idx: Vow::new(EntryIdx::from(0u32)) });
     let h2 = if n == 3 {
-        store.add_entry(E3 { k: Word::from(k[2] as u64), r: uword(b0.clone()), idx: Vow::new(EntryIdx::from(0u32)) })
+        store.add_entry(E3 { k: Key::Const(k[2] as u64), r: uword(b0.clone()), idx: Vow::new(EntryIdx::from(0u32)) })
     } else {
         Vow::new(EntryIdx::from(2u32)).bind()
     };
@@ -472,17 +485,14 @@ fn finalize_chain() {
     // e0's parent is e1, e1's parent is e2, e2 is the root; key = position of the parent + 1
     let v = [Vow::new(EntryIdx::from(0u32)), Vow::new(EntryIdx::from(0u32)), Vow::new(EntryIdx::from(0u32))];
     let b = [v[0].bind(), v[1].bind(), v[2].bind()];
-    let key = |h: Bound<EntryIdx>| -> Word<u64> {
-        let f: Box<dyn Fn() -> u64 + Sync + Send> = Box::new(move || h.get().into_u32() as u64 + 1);
-        Word::from(f)
-    };
+    let key = |h: Bound<EntryIdx>| -> Key { Key::ParentPlusOne(h) };
     let [v0, v1, v2] = v;
     let mut store: EntryStore<PN, VN, E3> = EntryStore::new(schema1(), Some(3));
     let h0 = store.add_entry(E3 { k: key(b[1].clone()), r: uword(b[1].clone()), idx: v0 });
     let h1 = store.add_entry(E3 { k: key(b[2].clone()), r: uword(b[2].clone()), idx: v1 });
     // (no nondeterministic input: a counterexample is replayed natively by running the harness as
     // it stands, see the runner)
-    let h2 = store.add_entry(E3 { k: Word::from(0u64), r: uword(b[2].clone()), idx: v2 });
+    let h2 = store.add_entry(E3 { k: Key::Const(0), r: uword(b[2].clone()), idx: v2 });
     let seen = run_finalize(store, 3, false);
     // the only order consistent with the keys: root, its child, the grandchild
     assert!(pos(&h2) == 0 && pos(&h1) == 1 && pos(&h0) == 2, "VERIF: after the sort loop a handle does not report the position its entry is written at");
